@@ -254,10 +254,18 @@ Proof.
   apply from_mpq_val. now apply qcanon_eq.
 Qed.
 
-(* pow with a negative exponent of 0: expected zoo, the model (and the library) die *)
-Theorem pow_zero_negative_refuted :
-  exists e, e < 0 /\ num_pow (NInt 0) (NInt e) = ErrExn EXN_SIGFPE.
-Proof. exists (-1). split; [lia|]. vm_compute. reflexivity. Qed.
+(* pow with a negative exponent of 0 (Integer::pow_negint, repaired in commit 5eef324) *)
+Theorem pow_zero_negative : forall e, e < 0 -> Z.abs e <? TWO64 = true ->
+  num_pow (NInt 0) (NInt e) = Ok (NInf 0).
+Proof.
+  intros e He Hr. apply Z.ltb_lt in Hr. unfold num_pow. cbn [pow_step]. unfold int_powint, fits_ulong.
+  assert (E1 : (0 <=? e) = false) by (apply Z.leb_gt; lia). rewrite E1. cbn [andb].
+  assert (E2 : (0 <? e) = false) by (apply Z.ltb_ge; lia). rewrite E2.
+  unfold int_pow_negint, fits_ulong.
+  assert (E3 : (0 <=? - e) = true) by (apply Z.leb_le; lia).
+  assert (E4 : (- e <? TWO64) = true) by (apply Z.ltb_lt; lia).
+  rewrite E3, E4. cbn [andb]. rewrite zpow_spec by lia. rewrite Z.pow_0_l by lia. reflexivity.
+Qed.
 
 (* ------------------------------------------------------------------ integer powers *)
 #[global] Instance qi_powz_proper : Proper (qi_eq ==> eq ==> qi_eq) qi_powz.
@@ -516,9 +524,11 @@ Lemma good_zero_div : forall b, good (zero_div b).
 Proof. intros []; split; try reflexivity; right; [left|right]; reflexivity. Qed.
 Lemma good_int : forall z, good (NInt z).
 Proof. intros z. split; [reflexivity|left; reflexivity]. Qed.
+Lemma good_zoo : good (NInf 0).
+Proof. split; [reflexivity|right; right; reflexivity]. Qed.
 
 #[local] Hint Resolve qadd_low qsub_low qmul_low qdiv_low qcanon_low qlow_opp qlow_inject qlow_inv
-  good_from_mpq good_cplx good_zero_div good_int : nwf.
+  good_from_mpq good_cplx good_zero_div good_int good_zoo : nwf.
 
 Ltac wf_cases a b Ha Hb Hwa Hwb :=
   destruct a as [za|na da|rna rda ina ida| | | | ]; cbn [num_is_exact] in Ha; try discriminate Ha;
